@@ -108,7 +108,8 @@ class Wearable(SchemaBase):
         if version_str != WEARABLE_VERSION:
             raise ValueError(f"Bad wearable version {version_str!r}")
         # The name is the line right after the version, and it may be empty
-        name = reader.readline().rstrip()
+        # Only the line terminator goes, trailing blanks are part of the name
+        name = reader.readline().rstrip("\r\n")
 
         permissions = InventoryPermissions.from_reader(reader, read_header=True)
         sale_info = InventorySaleInfo.from_reader(reader, read_header=True)
